@@ -1,13 +1,13 @@
 SPECIFICATION Spec
 CONSTANTS
   Ids <- Ids1
-  Calls <- CallsQ
+  Calls <- CallsRR
   TagOps <- TagOps1
   Times <- Times1
-  MaxTests = 1
-  MaxTags = 0
+  MaxTests = 2
+  MaxTags = 1
   MaxTime = 1
-  MaxRuns = 1
+  MaxRuns = 2
 CONSTRAINT ExportC
 INVARIANT WireWellFormed
 INVARIANT RoundTrip
